@@ -970,6 +970,17 @@ func UseStores(a, b Store, k string) (string, error) {
 	return x + "|" + y, nil
 }
 
+// StoreOf: concrete values (a struct, a pointer to a fresh struct) converted to the opaque interface Store.
+func StoreOf(prefix string, k string) (string, error) {
+	m := MemStore{Prefix: prefix}
+	return UseStores(m, &MemStore{Prefix: prefix + "2"}, k)
+}
+
+// RefusedNilableToIface: a pointer that may be nil is converted to an interface.
+func RefusedNilableToIface(p *MemStore, k string) (string, error) {
+	return UseStores(p, p, k)
+}
+
 func makeCode(s string) (CodeError, bool) { return CodeError{Msg: s}, s != "" }
 
 // RefusedTupleConv: the first component of the call is converted to error implicitly.
@@ -1059,6 +1070,43 @@ func RefusedDeferAssign(s string) (err error) {
 		}
 	}()
 	return nil
+}
+
+// ---- a parameter of type any instantiated per call site (InstantiateAny) ----
+
+// decode is an oracle with OutParams "v": it writes through v (here: only a *Rec or a *Counter).
+func decode(data string, v any) error {
+	if data == "" {
+		return errors.New("no data")
+	}
+	switch p := v.(type) {
+	case *Rec:
+		p.Name, p.N = data, len(data)
+	case *Counter:
+		p.N, p.Log = len(data), append(p.Log, data)
+	}
+	return nil
+}
+
+// fillFrom has InstantiateAny "out" and NonNil: inside, out is the caller's pointer.
+func fillFrom(data string, out any) error {
+	if strings.HasPrefix(data, "#") {
+		return fmt.Errorf("comment %q", data)
+	}
+	if err := decode(data, out); err != nil {
+		return fmt.Errorf("decode: %w", err)
+	}
+	return nil
+}
+
+func UseFill(data string) (string, int, int, []string, error) {
+	var r Rec
+	if err := fillFrom(data, &r); err != nil {
+		return "", 0, 0, nil, err
+	}
+	a := Counter{Log: []string{"first"}}
+	err := fillFrom(data+"!", &a)
+	return r.Name, r.N, a.N, a.Log, err
 }
 
 // newRec is an oracle with FreshResults: the record it returns may be nil and is owned by the caller.
@@ -1230,7 +1278,7 @@ var Funcs = map[string]any{
 	"ArrayRange": ArrayRange, "TimeZero": TimeZero, "JoinCollapse": JoinCollapse,
 	"InOutPtr": InOutPtr, "Variadic": Variadic,
 	"ErrKind": ErrKind, "AnySwitch": AnySwitch, "Bytes": Bytes, "Bits": Bits, "UseHolder": UseHolder,
-	"UsePages": UsePages, "LocalIdentity": LocalIdentity, "UseStores": UseStores, "Effects": Effects, "EffectTail": EffectTail, "OwnedPtr": OwnedPtr, "OwnedPtrPanics": OwnedPtrPanics,
+	"UsePages": UsePages, "LocalIdentity": LocalIdentity, "UseStores": UseStores, "StoreOf": StoreOf, "UseFill": UseFill, "Effects": Effects, "EffectTail": EffectTail, "OwnedPtr": OwnedPtr, "OwnedPtrPanics": OwnedPtrPanics,
 	"UseFinder": UseFinder, "UseFinderPanics": UseFinderPanics,
 }
 
